@@ -92,6 +92,21 @@ def gen_source():
         for f in FORMS:
             s.append(gen_kernel(name, f))
     s.append('''
+// a sandbox function's address passed back as a function-pointer argument (tainted or opaque form): the guest must
+// see the backend's function-pointer representation (table handle), not a data-pointer translation
+long gf_fp(long (*)(long), int);
+static int32_t g0_fp(uint32_t h, int32_t x) { env_log(35, 0, h, (uint64_t)(int64_t)x); return (int32_t)env_u64(40); }
+static int32_t g1_fp(uint32_t h, int32_t x) { env_log(35, 1, h, (uint64_t)(int64_t)x); return (int32_t)env_u64(40); }
+K uint64_t k_fnptr_arg(uint64_t b0, uint64_t b1, uint32_t inst, uint32_t opaque) {
+  RL s[2]; setup(s, b0, b1);
+  s[0].get_sandbox_impl()->add_symbol("gf_fp", (void*)&g0_fp, 0x180); s[1].get_sandbox_impl()->add_symbol("gf_fp", (void*)&g1_fp, 0x280);
+  auto run = [&](RL& sb) {
+    auto a = sb.get_sandbox_function_address(gf_s1);
+    if (opaque) { auto o = a.to_opaque(); return (uint64_t)sb.invoke_sandbox_function(gf_fp, o, 3).UNSAFE_unverified(); }
+    return (uint64_t)sb.invoke_sandbox_function(gf_fp, a, 3).UNSAFE_unverified();
+  };
+  return (inst & 1) ? run(s[1]) : run(s[0]);
+}
 // both instances invoked for the same name, in either order: each must reach its own library
 K uint64_t k_two_instances(uint64_t b0, uint64_t b1, uint32_t first, long v) {
   RL s[2]; setup(s, b0, b1);
@@ -232,6 +247,26 @@ def check_fnaddr(ctx):
     ctx.expect(paths, ret=2)
 
 
+def check_fnptr_arg(ctx):
+    ctx.eng.max_strlen = 64
+    b0 = ctx.sandbox_base(32, "b0")
+    b1 = ctx.sandbox_base(32, "b1")
+    ctx.assume(b0 != b1)
+    inst = ctx.sym("inst", 32)
+    opq = ctx.sym("opaque", 32)
+    ctx.assume(z3.ULE(inst, 1), z3.ULE(opq, 1))
+    paths = ctx.run("k_fnptr_arg", [b0, b1, inst, opq])
+    h = z3.If(inst == 0, BV(0x100 + 8, 64), BV(0x200 + 8, 64))
+    for q in paths:
+        if q.status == "ret":
+            g = logs(q, 35, 35)
+            ctx.require(q, z3.And(z3.BoolVal(len(g) == 1), bv(g[0][1]) == zext(inst, 64), bv(g[0][2]) == h, bv(g[0][3]) == 3) if g else z3.BoolVal(False),
+                        "a function-pointer argument arrives as the backend's function-pointer representation of that function")
+        else:
+            ctx.fail(q, "invocation with a function-pointer argument failed: %s" % q.info)
+    ctx.expect(paths, ret=4)
+
+
 NOOP_SRC = r'''
 #include "verif_env.hpp"
 #define RLBOX_USE_STATIC_CALLS() rlbox_noop_sandbox_lookup_symbol
@@ -276,7 +311,8 @@ def jobs(tier, seed):
     src = gen_source()
     fl = ["-D_GLIBCXX_EXTERN_TEMPLATE=0"]
     items = [dict(name="BM %s %s" % (n, f), fn=check_sig, kw=dict(name=n, form=f), unwind=300) for n in SIGS for f in FORMS]
-    items += [dict(name="BM two instances same name", fn=check_two, unwind=300), dict(name="BM function address before/after invoke", fn=check_fnaddr, unwind=300)]
+    items += [dict(name="BM two instances same name", fn=check_two, unwind=300), dict(name="BM function address before/after invoke", fn=check_fnaddr, unwind=300),
+              dict(name="BM function pointer argument", fn=check_fnptr_arg, unwind=300)]
     out = [Job("C11_bm_%d" % i, src, items[i::6], flags=fl) for i in range(6)]
     out.append(Job("C11_noop_static", NOOP_SRC, [dict(name="noop static call", fn=check_noop, unwind=300)], native=False))
     return out
